@@ -165,9 +165,9 @@ def _maxpool(module, grad_input, grad_output):
 	"""
 
 	if isinstance(module, torch.nn.MaxPool1d):
-		pool_func, unpool_func = F.max_pool1d, F.max_unpool1d
+		pool_func = F.max_pool1d
 	elif isinstance(module, torch.nn.MaxPool2d):
-		pool_func, unpool_func = F.max_pool2d, F.max_unpool2d
+		pool_func = F.max_pool2d
 	else:
 		raise ValueError("module must be either MaxPool1d or MaxPool2d")
 
@@ -184,9 +184,12 @@ def _maxpool(module, grad_input, grad_output):
 		_, indices = pool_func(module.input, module.kernel_size, module.stride, 
 			module.padding, module.dilation, module.ceil_mode, True)
 
-		unpool_ = unpool_func(grad_output[0] * delta_out, indices, 
-			module.kernel_size, module.stride, module.padding, 
-			list(module.input.shape))
+		# Accumulate instead of max_unpool: when pooling windows overlap several
+		# outputs can select the same input position and each contributes.
+		unpool_ = torch.zeros_like(module.input).flatten(start_dim=2)
+		unpool_.scatter_add_(2, indices.flatten(start_dim=2), 
+			(grad_output[0] * delta_out).flatten(start_dim=2))
+		unpool_ = unpool_.reshape(module.input.shape)
 		unpool_delta, unpool_ref_delta = torch.chunk(unpool_, 2)
 
 	unpool_delta_ = unpool_delta + unpool_ref_delta
